@@ -14,7 +14,8 @@
    offsets, uncovered_fails that an uncovered source fails, transpose_total that the model never
    reaches a panic site nor runs out of fuel.  No known-finding class is needed. *)
 From Coq Require Import NArith.
-From Stam Require Import Base.Tac Model.Rel Model.Offset Model.Transpose Spec.TransposeSpec Proofs.Transpose.
+From Stam Require Import Base.Tac Base.Sx Model.Rel Model.Offset Model.Transpose Spec.TransposeSpec Proofs.Transpose
+  Run.C16 Proofs.TransposeRun.
 
 (* rel_offset_text *)
 Theorem C16_rel_offset_text : forall (t1 t2 : text) b1 e1 b2 e2 x y,
@@ -84,6 +85,24 @@ Proof.
   intros T V r src cfg existing complex fuel Hwf. destruct (wf_input_facts _ _ _ _ _ Hwf) as (H1 & H2 & H3).
   exact (transpose_total T V r src cfg existing complex fuel H1 H2 H3).
 Qed.
+
+(* the correspondence run: on every well-formed input the specification side of sub-case 0 accepts
+   exactly what the model answers (so a run can only report implementation /= specification or
+   implementation /= model, never a model/specification divergence), and on the way back (sub-cases
+   1, 2) the demanded answer is the model's answer *)
+Theorem C16_run_forward_consistent : forall T V r src cfg existing complex fuel,
+  wf_input T complex V r src = true -> fuel_for src <= fuel ->
+  let m := transpose fuel (lens_of T) complex V r src cfg existing in
+  spec_fwd T V r src cfg true (show m) = show m.
+Proof. exact run_forward_consistent. Qed.
+
+Theorem C16_run_back_consistent : forall T V r src cfg existing complex fuel rs (auto : bool),
+  wf_input T complex V r src = true ->
+  transpose fuel (lens_of T) complex V r src cfg existing = TOk rs ->
+  let m := TOk rs in
+  let cfgf := fun j : nat => if auto then None else Some j in
+  spec_back T V r src cfg true auto (show m) (back_model (lens_of T) m cfgf) = back_model (lens_of T) m cfgf.
+Proof. exact run_back_consistent. Qed.
 
 (* non-vacuity: "abcdefgh" / "xabcdyefgh", fragments abcd|efgh on both sides, source 2..6 "cdef"
    spans two fragments: resegmented into 2..4, 4..6 and transposed to 3..5, 6..8; transposing the
